@@ -38,11 +38,16 @@ MANIFEST = {
             "list (Model/ObserveKey.lean): observation_identity_ignores(_etag) (ETag, OSCORE, Observe and NoCacheKey options "
             "never change the key), observation_identity_exact (equal keys <=> equal cache-key options: numbers, lengths, "
             "values, order), reregistration_same_target_replaces (run level: never two entries of a session whose requests "
-            "have the same cache-key options, whatever tokens/ETags), registration_of_other_target_keeps. M is tied to the "
+            "have the same cache-key options, whatever tokens/ETags), registration_of_other_target_keeps; FETCH registrations "
+            "(RFC 8132): reqKey = method code, FETCH payload with its length, cache-key options (fix a4f9bc4); "
+            "request_identity_exact (equal keys <=> same method, same cache-key options and for FETCH the same payload), "
+            "reregistration_replaces_requests (run level: two entries of a session never stem from the same request), "
+            "registration_of_other_request_keeps, fetch_observations_with_different_payloads_are_distinct, "
+            "get_and_fetch_observations_are_distinct. M is tied to the "
             "compiled code by exact trace equality on an H-sim harness (real server context, 1..3 resources, 1..4 real client "
             "contexts whose token values are per-client or shared between clients and 0..8 bytes long - the empty token, tokens "
-            "that are proper prefixes of one another or differ in trailing zero bytes only -, requests with and without ETag / Size1 "
-            "options, virtual clock, scripted network): every datagram, every subscriber list, counter, flag, session "
+            "that are proper prefixes of one another or differ in trailing zero bytes only -, GET and FETCH requests (four payloads) "
+            "with and without ETag / Size1 options, virtual clock, scripted network): every datagram, every subscriber list, counter, flag, session "
             "ref/con_active/tx_mid and send-queue deadline after every event; the implementation's trace is in addition "
             "judged directly against the property by an oracle that never looks at M.",
     "note": "partial: (i) Reset — no_notification_after_reset_run_partial covers a Reset naming a queued CON or the entry's "
@@ -91,6 +96,11 @@ REQUIRED_THEOREMS = ["reregistration_replaces", "observe_strictly_increasing", "
                      "cancel_leaves_other_sessions", "latest_eventually_notified_when_acknowledged",
                      "fair_step_decreases_stale_when_acknowledged", "reset_leaves_other_clients",
                      "give_up_leaves_other_clients", "ack_leaves_other_clients",
+                     # FETCH observations: identity = method + cache-key options + payload (round R11c)
+                     "request_identity_exact", "request_identity_ignores", "payload_only_part_of_fetch_identity",
+                     "reregistration_replaces_requests", "registration_of_other_request_keeps",
+                     "fetch_observations_with_different_payloads_are_distinct", "fetch_registration_with_other_payload_keeps",
+                     "get_and_fetch_observations_are_distinct", "fetch_payload_aliased_before_fix",
                      # the token is the whole byte string (length included)
                      "binary_equal_exact", "token_identity_exact", "token_compare_is_binary_equal",
                      "token_compare_queue_is_binary_equal", "prefix_token_is_other_observer", "other_token_survives_delete",
@@ -247,13 +257,21 @@ QUERIES = [0, 0, 0, 0, 1, 1, 2, 2, 3, 4]      # 3 = ?a&b (two options), 4 = one 
 EXTRAS = [0] * 7 + [1, 1, 2, 3, 4, 5]         # options that are not part of the observation's identity: ETag(s), Size1 (NoCacheKey)
 
 
+# 9th field of reg/can/get (round R11c): 0 / absent = GET, 1..4 = FETCH (RFC 8132) with Content-Format 42 and payload variant
+# 1 empty, 2 "A", 3 "AB", 4 = the bytes a further Uri-Query option "b" feeds into the cache-key digest.  The observation's identity
+# is (method, cache-key options, FETCH payload): query variant 5 (`?a`) + payload 4 and query variant 3 (`?a&b`) + empty payload
+# are different observations, and so are a GET and a FETCH with an empty payload.
+FETCHES = [0] * 17 + [1, 2, 3]
+
+
 def gen_req(rng, op, ncli, nres, mids, toks=(1, 1, 1, 2, 3)):
     c = rng.randrange(ncli)
     if rng.random() < 0.9:
         mids[c] = (mids[c] + 1) % 65536
     x = rng.choice(EXTRAS)
+    pv = rng.choice(FETCHES)
     return "%s:%d:%d:%d:%d:%s:%d%s" % (op, c, rng.randrange(nres), rng.choice(toks), rng.choice(QUERIES),
-                                       rng.choice("CCN"), mids[c], ":%d" % x if x else "")
+                                       rng.choice("CCN"), mids[c], ":%d:%d" % (x, pv) if pv else ":%d" % x if x else "")
 
 
 INTERFERENCE_SHARE = 0.10      # share of the histories built around several clients observing under EQUAL token values
@@ -448,6 +466,116 @@ def gen_token_length_history(rng):
     return "obs st=%d R=%s C=%d %s" % (st, rs, ncli, " ".join(evs))
 
 
+FETCH_SHARE = 0.08      # share of the histories built around FETCH observations (method and payload are part of the identity)
+
+
+def gen_fetch_history(rng):
+    """One or two clients, each with several observations at once on FEW resources, GET and FETCH mixed: the targets are (resource,
+    query variant, payload variant) with the pairs that only method / payload tell apart over-represented (GET ?a&b, FETCH ?a&b
+    with the empty payload, FETCH ?a with the payload that spells the digest input of Uri-Query b; FETCH "A" / "AB" / empty).  Then,
+    round by round: changes, I/O and one of: refresh under the same token; the same target (same method, options, payload) under
+    another token = replaces that one only; a NEW observation for a target that differs in the payload / the method only = must
+    be added and must remove nothing; Observe=1 by the method, options and payload of one observation with its token or with an
+    unused token (cancellation by cache key) = only that one ends; Observe=1 for a target nobody observes (other payload / other
+    method) under an unused token = nothing ends; ACK / Reset; a refused refresh.  Every token stays on one target at a time."""
+    st = rng.choice([30, 30, 300])
+    nres = rng.choice([1, 1, 2])
+    ncli = rng.choice([1, 1, 2])
+    modes = [rng.choice("dddnncca") for _ in range(nres)]
+    rs = ",".join("%s%d" % (m, rng.choice(STARTS)) for m in modes)
+    pool = rng.choice([[1, 2, 3, 4, 5, 6, 7, 8], [128, 129, 130, 131, 1, 2, 3], [256, 257, 258, 259, 260, 261, 262]])
+    mids = [rng.randrange(0, 65536) for _ in range(ncli)]
+    fam = rng.choice([[(3, 0), (3, 1), (5, 4), (5, 1)], [(0, 0), (0, 1), (0, 2), (0, 3)], [(1, 2), (1, 3), (1, 0), (2, 2)],
+                      [(5, 4), (3, 1), (0, 4), (0, 1)]])
+    targets = [(r, q, pv) for r in range(nres) for (q, pv) in fam]
+    held = {}          # (c, token bytes) -> (r, q, pv, t)
+    evs = []
+
+    def mid(c):
+        mids[c] = (mids[c] + 1) % 65536
+        return mids[c]
+
+    def req(op, c, r, t, q, pv, x=0):
+        evs.append("%s:%d:%d:%d:%d:%s:%d%s" % (op, c, r, t, q, rng.choice("CCN"), mid(c), ":%d:%d" % (x, pv) if pv else ":%d" % x if x else ""))
+
+    def free_tokens(c):
+        return [t for t in pool if (c, O.tok_of(c, t)) not in held]
+
+    def free_targets(c):
+        taken = set(v[:3] for k, v in held.items() if k[0] == c)
+        return [x for x in targets if x not in taken]
+
+    def register_new(c):
+        ft, fx = free_tokens(c), free_targets(c)
+        if not ft or not fx:
+            return False
+        t = rng.choice(ft)
+        r, q, pv = rng.choice(fx)
+        req("reg", c, r, t, q, pv, rng.choice(EXTRAS))
+        held[(c, O.tok_of(c, t))] = (r, q, pv, t)
+        return True
+
+    for c in range(ncli):
+        for _ in range(rng.choice([2, 3, 3, 4])):
+            register_new(c)
+    for _ in range(rng.choice([2, 3, 4, 6])):
+        for r in range(nres):
+            if rng.random() < 0.7:
+                evs += ["chg:%d" % r] * rng.choice([1, 1, 2])
+        evs.append(rng.choice(["io", "io", "io", "adv:100", "adv:2000"]))
+        for _ in range(rng.choice([1, 1, 2, 3])):
+            c = rng.randrange(ncli)
+            mine = [(k, v) for k, v in held.items() if k[0] == c]
+            x = rng.random()
+            if x < 0.15 and mine:
+                k, (r, q, pv, t) = rng.choice(mine)        # proper cancellation of ONE observation
+                req("can", c, r, t, q, pv)
+                del held[k]
+            elif x < 0.27 and mine:
+                ft = free_tokens(c)                         # cancellation by cache key: method, options and payload, unused token
+                if ft:
+                    k, (r, q, pv, t) = rng.choice(mine)
+                    req("can", c, r, rng.choice(ft), q, pv, rng.choice(EXTRAS))
+                    del held[k]
+            elif x < 0.40:
+                ft, fx = free_tokens(c), free_targets(c)    # Observe=1 that names nothing: unused token, an unobserved target
+                if ft and fx:
+                    r, q, pv = rng.choice(fx)
+                    req("can", c, r, rng.choice(ft), q, pv)
+            elif x < 0.48 and mine:
+                k, (r, q, pv, t) = rng.choice(mine)        # refresh
+                req("reg", c, r, t, q, pv, rng.choice(EXTRAS))
+            elif x < 0.66:
+                register_new(c)
+            elif x < 0.78 and mine:
+                ft = free_tokens(c)                         # the same target under another token: replaces that one only
+                if ft:
+                    k, (r, q, pv, t) = rng.choice(mine)
+                    t2 = rng.choice(ft)
+                    req("reg", c, r, t2, q, pv, rng.choice(EXTRAS))
+                    del held[k]
+                    held[(c, O.tok_of(c, t2))] = (r, q, pv, t2)
+            elif x < 0.86:
+                evs.append("ack:%d:%d" % (c, rng.choice([1000, 1000, 1001, 1002])))
+            elif x < 0.92:
+                evs.append("rst:%d:%d" % (c, rng.choice([1000, 1000, 1001, 1002, 1003])))
+                evs.append("io")
+            elif mine:
+                k, (r, q, pv, t) = rng.choice(mine)        # the handler refuses a refresh: that observation ends
+                evs.append("err:%d:%d" % (r, rng.choice([1, 1, 2, 3])))
+                req(rng.choice(["reg", "get"]), c, r, t, q, pv)
+                evs.append("err:%d:0" % r)
+    for r in range(nres):
+        evs += ["chg:%d" % r, "io"]
+    if rng.random() < 0.8:
+        for _ in range(3):
+            for c in range(ncli):
+                for k in range(8):
+                    evs.append("ack:%d:%d" % (c, 1000 + k))
+        evs += ["io", "io", "io"]
+    return "obs st=%d R=%s C=%d %s" % (st, rs, ncli, " ".join(evs))
+
+
 BLOCK_SHARE = 0.12      # share of the histories that use a block-wise resource (judged by the oracle only, not replayed through M)
 
 
@@ -568,6 +696,8 @@ def gen_any(rng):
         return gen_interference_history(rng)
     if x < BLOCK_SHARE + INTERFERENCE_SHARE + TOKEN_LENGTH_SHARE:
         return gen_token_length_history(rng)
+    if x < BLOCK_SHARE + INTERFERENCE_SHARE + TOKEN_LENGTH_SHARE + FETCH_SHARE:
+        return gen_fetch_history(rng)
     return gen_history(rng)
 
 
@@ -702,7 +832,8 @@ def classify(c):
     if ".1." in i: pass
     # coverage only (from the INPUT): requests with options outside the observation's identity; one token value used by >= 2 clients
     reqs = [w.split(":") for w in c["input"].split()[4:] if w[:4] in ("reg:", "can:", "get:")]
-    if any(len(f) == 8 and f[7] != "0" for f in reqs): k.append("extra-opts")
+    if any(len(f) >= 8 and f[7] != "0" for f in reqs): k.append("extra-opts")
+    if any(len(f) == 9 for f in reqs): k.append("fetch")
     by_tok = {}
     for f in reqs:
         if len(f) >= 4 and f[3].isdigit() and int(f[3]) >= 128:
